@@ -126,6 +126,12 @@ func runtimeImportPaths(r *Repo) map[string]bool {
 		}
 		return true
 	})
+	// … or hands to AddImport from a list
+	for _, a := range []bool{true, false} {
+		for _, p := range compileImports(a) {
+			out[p] = true
+		}
+	}
 	return out
 }
 
@@ -161,6 +167,8 @@ func importAlias(c *Check, r *Repo) {
 		{{"", "a"}, {"a", "a"}},
 		{{"_", "embed"}, {"", "unicode/utf8"}},
 		{{"", "b"}, {"", "a"}, {"", "b"}},
+		{{"fmt", "fmt"}},
+		{{"strconv", "strconv"}, {"f", "fmt"}, {"fmt", "fmt"}},
 	}
 	var bad []string
 	und := ""
